@@ -901,7 +901,11 @@ func run(ctx *Ctx) *Result {
 				}
 				res.Count("c07:ignored-lines-compared")
 				if strings.Join(l0, "\n") != strings.Join(ign1[head], "\n") {
-					res.Fail(sig("ignored_line_touched"), fmt.Sprintf("unmodelled lines of `%s` differ after the script:\n%s\n-- before\n%s\n-- script\n%s",
+					how := "line_edited"
+					if final.findHead(head) == nil && contains(cmds, "no "+head) {
+						how = "section_removed_as_a_whole" // `no tunnel-group X ipsec-attributes`: the target has no such section
+					}
+					res.Fail(sig("ignored_line_touched", "how", how), fmt.Sprintf("unmodelled lines of `%s` differ after the script:\n%s\n-- before\n%s\n-- script\n%s",
 						head, strings.Join(ign1[head], "\n"), strings.Join(l0, "\n"), out), c)
 				}
 			}
